@@ -9,6 +9,13 @@ use std::sync::atomic::{AtomicU64, Ordering};
 
 static HASH_SEED: AtomicU64 = AtomicU64::new(0);
 static CALLS: AtomicU64 = AtomicU64::new(0);
+static PER_THREAD: std::sync::atomic::AtomicBool = std::sync::atomic::AtomicBool::new(true);
+
+/// `false`: every thread of the run gets the same keys (C17/C18 hold the hash dimension
+/// fixed; C13 varies it per thread like real process launches do).
+pub fn set_per_thread(on: bool) {
+  PER_THREAD.store(on, Ordering::SeqCst);
+}
 
 thread_local! {
   static SIM_TID: Cell<u64> = const { Cell::new(0) };
@@ -33,7 +40,8 @@ pub fn calls() -> u64 {
 pub unsafe extern "C" fn getrandom(buf: *mut u8, len: usize, _flags: u32) -> isize {
   CALLS.fetch_add(1, Ordering::Relaxed);
   let seed = HASH_SEED.load(Ordering::SeqCst);
-  let tid = SIM_TID.try_with(|t| t.get()).unwrap_or(0);
+  let per_thread = PER_THREAD.load(Ordering::SeqCst);
+  let tid = if per_thread { SIM_TID.try_with(|t| t.get()).unwrap_or(0) } else { 0 };
   let ctr = COUNTER
     .try_with(|c| {
       let v = c.get();
@@ -41,6 +49,7 @@ pub unsafe extern "C" fn getrandom(buf: *mut u8, len: usize, _flags: u32) -> isi
       v
     })
     .unwrap_or(0);
+  let ctr = if per_thread { ctr } else { 0 };
   let mut s = mix64(seed ^ mix64(tid.wrapping_mul(0x9E37_79B9_7F4A_7C15) ^ ctr.wrapping_mul(0xD6E8_FEB8_6659_FD93)));
   let mut i = 0usize;
   while i < len {
